@@ -55,6 +55,7 @@ class Engine:
         self.fork_log = []
         self.active = False
         self.exp_underflow = False
+        self.exp_monotone = False
         self.fact_ids = set()
         self.in_fact_stub = 0
         FACT.clear()
@@ -713,16 +714,31 @@ def sym_exp(s):
                 ENGINE.assume(y > 0, "Exp(x) > 0")
             ENGINE.assume((zx == 0) == (y == 1), "Exp(x)==1 <=> x==0")
             ENGINE.assume((zx > 0) == (y > 1), "Exp monotone wrt 0")
-            f = ENGINE.func("Exp")
-            for (px, py) in prev:
-                # monotone and functional equation instantiated for the pairs that occur
-                ENGINE.assume(z3.Implies(px < zx, py <= y))
-                ENGINE.assume(z3.Implies(zx < px, y <= py))
-                if not ENGINE.exp_underflow:
-                    ENGINE.assume(z3.Implies(px < zx, py < y), "Exp strictly monotone (instantiated)")
-                    ENGINE.assume(f(px + zx) == py * y, "Exp(a+b)=Exp(a)Exp(b) (instantiated)")
-                    ENGINE.assume(f(px - zx) * y == py)
-                    ENGINE.assume(f(zx - px) * py == y)
+            if ENGINE.exp_monotone:
+                for (px, py) in prev:
+                    ENGINE.assume(z3.Implies(px < zx, py <= y), "Exp monotone (instantiated pairwise)")
+                    ENGINE.assume(z3.Implies(zx < px, y <= py))
+                    if not ENGINE.exp_underflow:
+                        ENGINE.assume(z3.Implies(px < zx, py < y))
+            if not ENGINE.exp_underflow:
+                # functional equation Exp(a+b) = Exp(a) Exp(b), instantiated wherever one
+                # occurring argument is syntactically the sum of two others
+                def is0(e):
+                    r = z3.simplify(e)
+                    return z3.is_rational_value(r) and r.numerator_as_long() == 0
+                allp = prev + [(zx, y)]
+                for i, (ax_, ay) in enumerate(allp):
+                    for (bx, by) in allp[i:]:
+                        if is0(zx - ax_ - bx):
+                            ENGINE.assume(y == ay * by, "Exp(a+b)=Exp(a)Exp(b) (instantiated)")
+                for (cx_, cy) in prev:
+                    for (ax_, ay) in prev:
+                        if is0(cx_ - zx - ax_):
+                            ENGINE.assume(cy == y * ay)
+                    if is0(cx_ - zx - zx):
+                        ENGINE.assume(cy == y * y)
+                    if is0(cx_ + zx):
+                        ENGINE.assume(cy * y == 1, "Exp(-a)Exp(a)=1 (instantiated)")
         return SymR(_uf_app("Exp", x, ax))
     # complex argument
     mag = sym_exp(SymR(s.re))
